@@ -78,11 +78,11 @@ theorem C01_main_strict (F : Nat → Bytes → Bytes) (s : Sys) (h : Hist) (inv 
         simp only [chanStep, getSecretOrNone] at hv
         repeat' split at hv
         all_goals simp at hv
-      | revoke n =>
+      | revoke n po =>
         simp only [chanStep, needReady] at hv
         split at hv
         · simp [fail] at hv
-        · simp [revoke_validated] at hv
+        · simp [revokeP_validated] at hv
       | activate =>
         simp only [chanStep, needReady] at hv
         split at hv
@@ -115,12 +115,12 @@ theorem C01_main_strict (F : Nat → Bytes → Bytes) (s : Sys) (h : Hist) (inv 
         · simp [fail] at hv
         · simp [(revokeCp_frame F _ n sec pt).2.2.2.2.2.2.2] at hv
       | restart => exact hr rfl
-      | hRevoke ver n =>
+      | hRevoke ver n po =>
         simp only [chanStep, needReady] at hv
         repeat' split at hv
         all_goals first
           | (simp [fail] at hv; done)
-          | (simp [revoke_validated] at hv; done)
+          | (simp [revokeP_validated] at hv; done)
       | hGetPoint ver n =>
         simp only [chanStep] at hv
         repeat' split at hv
@@ -212,11 +212,11 @@ theorem C01_gen_ties :
 
 /-- validate 0, activate, validate 1, revoke 1 discloses secret 0; the history justifies it -/
 example : ((runH shaF init [] [.setup, .validate 0 0 .valid true, .activate, .validate 1 1 .valid true,
-    .revoke 1]).2.head?.map (·.2.secret)) = some (some 0) := by decide
+    .revoke 1 true]).2.head?.map (·.2.secret)) = some (some 0) := by decide
 
 /-- the same without the validation of 1 is refused -/
 example : ((runH shaF init [] [.setup, .validate 0 0 .valid true, .activate, .validate 1 1 .invalid true,
-    .revoke 1]).2.head?.map (·.2.res)) = some .errPolicy := by decide
+    .revoke 1 true]).2.head?.map (·.2.res)) = some .errPolicy := by decide
 
 /-- old protocol: one request validates 1 and discloses 0 -/
 example : ((runH shaF init [] [.setup, .hValidate 4 0 0 .valid true, .hValidate 4 1 1 .valid true]).2.head?.map
